@@ -22,7 +22,7 @@ from absint import Interp, En, St, Rf, Vc, Top, usize
 from axioms import Axioms
 from cfgrules import FnInfo, op_locals
 from facts import span_str
-from mirutil import reachable_blocks, successors
+from mirutil import reachable_blocks, successors, bool_branch_taken
 from symterm import Terms, affine, fmt, root_local, linear, lin_sub
 from values import Fl, In
 
@@ -462,7 +462,7 @@ def run(chk, F, tier):
                     flip = True
                 else:
                     continue
-                taken_true = not any(v == 0 and tg == path[i + 1] for v, tg in t["targets"])
+                taken_true = bool_branch_taken(t, path[i + 1])
                 setv = ORD[m] if taken_true else {"<", "=", ">"} - ORD[m]
                 if flip:
                     setv = {FLIP[x] for x in setv}
@@ -547,7 +547,7 @@ def path_conditions(inst, T, path):
         la, lb = linear(T.of_operand(rv["a"])), linear(T.of_operand(rv["b"]))
         if la is None or lb is None:
             continue
-        taken_true = not any(v == 0 and tg == path[i + 1] for v, tg in t["targets"])
+        taken_true = bool_branch_taken(t, path[i + 1])
         rel = OPS[rv["op"]]
         if taken_true == neg:
             rel = NEG[rel]
